@@ -612,6 +612,14 @@ pub fn sched_scenarios(g: &Geo, setups_filter: &[&str], caches: &[&str], pairs: 
             }
         }
         for (name, ik, setup, tasks) in sched_curated(g) {
+            let v = g.vsize();
+            let in_range = |o: &Op| match o {
+                Op::Write { off, len, .. } | Op::Read { off, len } => *off + *len as u64 <= v,
+                _ => true,
+            };
+            if !(setup.iter().all(in_range) && tasks.iter().flatten().all(in_range)) || ik.starts_with("GF-") && g.cluster_bits != 10 {
+                continue;
+            }
             out.push(SchedScenario { name: name.into(), img: img(ik), cfg: cfg.clone(), cfg_name: cn.to_string(), setup, tasks, fused: true });
         }
     }
@@ -809,7 +817,7 @@ pub fn crash_family(prop: &str) -> i32 {
     } else {
         vec![
             SeqPlan { geo: images::G9, images: vec!["libfmt", "data"], cfgs: vec!["small", "ample"], depth: 6, secs: 400 },
-            SeqPlan { geo: images::G10, images: vec!["libfmt", "data", "compressed", "backing"], cfgs: vec!["small", "ample"], depth: 6, secs: 600 },
+            SeqPlan { geo: images::G10, images: vec!["libfmt", "data", "compressed", "backing", "zero", "compressed-straddle"], cfgs: vec!["small", "ample"], depth: 6, secs: 600 },
             SeqPlan { geo: images::G12, images: vec!["libfmt"], cfgs: vec!["small"], depth: 3, secs: 120 },
         ]
     };
